@@ -7,6 +7,7 @@ from .c08 import ec_mul, G, N, P, ser_pub
 
 ID = "C11"
 LEVEL = "proof"
+EXTRA_TARGETS = ["Proofs/ConstsTie.vo"]   # constants regenerated from the Rust source
 RULE = ("messages of length 0,1,15,16,17,31,32,33,47,48,64,100 and 1 KiB..20 KiB (descriptors), both public-key inclusion "
         "modes, compressed and uncompressed recipient keys, fixed sender keys (byte-identical ciphertext and cipher keys "
         "against the independent BIE1 construction); the real ciphertexts are decrypted with right / wrong keys and wrong "
